@@ -367,6 +367,19 @@ abbrev FS := List (Str × Str)      -- relative path ↦ digest of the content
 def fsSet (fs : FS) (p d : Str) : FS := Schema.setAssoc p d fs
 def fsDel (fs : FS) (p : Str) : FS := fs.filter fun e => e.1 ≠ p
 
+/-- the effect of a command on a flat directory: files written, then files deleted -/
+def applyEffect (fs : FS) (sets : List (Str × Str)) (dels : List Str) : FS :=
+  dels.foldl fsDel (sets.foldl (fun f e => fsSet f e.1 e.2) fs)
+
+/-- what a link produced by `InTotoRun` (or by `InTotoRecordStart` … `InTotoRecordStop`) reports:
+    materials are recorded BEFORE the command runs, products AFTER it -/
+structure Snapshots where
+  materials : FS
+  products : FS
+
+def runStep (fs : FS) (sets : List (Str × Str)) (dels : List Str) : Snapshots :=
+  { materials := fs, products := applyEffect fs sets dels }
+
 /-- recorded artifacts of the inspected directory: `.` gives relative names, an explicit run
     directory gives names below that directory -/
 def record (root : Str) (fs : FS) : Rules.Arts :=
